@@ -319,7 +319,7 @@ func weedCorpus(s *build.Scratch, pkgs []CorpusPkg, skipped map[string]string) (
 	sb.WriteString("}\n\n// typedPkgs maps a corpus package to its typed glue.\nvar typedPkgs = map[string]*typedPkg{\n")
 	for _, p := range keep {
 		if len(p.Ops) > 0 {
-			fmt.Fprintf(&sb, "\t%q: {New: %s.SimTypedNew, Impls: %s.SimImpls, Ops: %s.SimOps, Webhooks: %s.SimWebhooks, WithURL: %s.SimWithServerURL, Label: %s.SimLabel},\n", p.Name, p.Name, p.Name, p.Name, p.Name, p.Name, p.Name)
+			fmt.Fprintf(&sb, "\t%q: {New: %s.SimTypedNew, Impls: %s.SimImpls, Ops: %s.SimOps, Webhooks: %s.SimWebhooks, WithURL: %s.SimWithServerURL, Label: %s.SimLabel, ReqOpts: %s.SimReqOpts},\n", p.Name, p.Name, p.Name, p.Name, p.Name, p.Name, p.Name, p.Name)
 		}
 	}
 	sb.WriteString("}\n")
